@@ -142,6 +142,18 @@ func VerifH_C04_crash() {
 	gi.AddVertex([]*gdbi.Vertex{{ID: "a", Label: "A", Data: map[string]interface{}{"k": 1.0}}})
 	gi.AddVertex([]*gdbi.Vertex{{ID: "b", Label: "B", Data: map[string]interface{}{"k": 2.0}}})
 	gi.AddEdge([]*gdbi.Edge{{ID: "e", From: "a", To: "b", Label: "A", Data: map[string]interface{}{}}})
+	// a second edge between a and b (its id is outside every alphabet): deleting a or b
+	// removes two key triples, which crosses the delete batch boundary once that is
+	// scaled down (const_rewrite)
+	// (natively the real buffer size applies: NATIVE_EXTRA_EDGES such edges are written)
+	extra := vParam("NATIVE_EXTRA_EDGES", 1)
+	for i := 0; i < extra; i++ {
+		uid := "u"
+		for n := i; n > 0; n /= 10 {
+			uid += string(rune('0' + n%10))
+		}
+		gi.AddEdge([]*gdbi.Edge{{ID: uid, From: "a", To: "b", Label: "B", Data: map[string]interface{}{}}})
+	}
 	// z and y are outside every alphabet: no symbolic operation targets them
 	gi.AddVertex([]*gdbi.Vertex{{ID: "z", Label: "Z", Data: map[string]interface{}{"k": 3.0}}})
 	gi.AddEdge([]*gdbi.Edge{{ID: "y", From: "z", To: "z", Label: "Z", Data: map[string]interface{}{}}})
